@@ -123,8 +123,10 @@ fn main() {
             }
             let p: problem::Problem = serde_json::from_value(v["problem"].clone()).unwrap();
             let mut lines = vec![];
+            let upd = v["update"].as_bool().unwrap_or(false);
             for (sf, mu) in [(false, false), (true, false), (false, true), (true, true)] {
-                lines.push(rec_json::roundtrip_event(v["run"].as_u64().unwrap_or(0) as usize, &p, &args.get("dir", "/tmp"), sf, mu));
+                let ev = rec_json::roundtrip_event_upd(v["run"].as_u64().unwrap_or(0) as usize, &p, &args.get("dir", "/tmp"), sf, mu, upd);
+                if ev.get("skipped").is_none() { lines.push(ev); }
             }
             write_lines(&args.get("out", "json.ndjson"), &lines);
         }
@@ -142,6 +144,23 @@ fn main() {
             println!("lhs: tau {:e} kappa {:e} x {:?} z {:?} s {:?}", s.step_lhs.τ, s.step_lhs.κ, s.step_lhs.x, s.step_lhs.z, s.step_lhs.s);
             println!("prev: tau {:e} kappa {:e} x {:?} z {:?} s {:?}", s.prev_vars.τ, s.prev_vars.κ, s.prev_vars.x, s.prev_vars.z, s.prev_vars.s);
             println!("vars: tau {:e} kappa {:e} x {:?} z {:?} s {:?}", s.variables.τ, s.variables.κ, s.variables.x, s.variables.z, s.variables.s);
+        }
+        "upd-debug" => {
+            // diagnostic: solve; update_q; solve  versus a fresh solver on the updated data (equilibration as in the case)
+            let v = load_case(&args);
+            let p: problem::Problem = serde_json::from_value(v["problem"].clone()).unwrap();
+            let (P, A) = (p.P.to_clarabel(), p.A.to_clarabel());
+            use clarabel::solver::IPSolver;
+            let q2: Vec<f64> = p.q.iter().enumerate().map(|(k, v)| v * 1.5 + 0.25 * (k as f64 + 1.0)).collect();
+            let mut s1 = clarabel::solver::DefaultSolver::new(&P, &p.q, &A, &p.b, &p.clarabel_cones(), p.settings());
+            if args.num("first", 1) != 0 { s1.solve(); println!("first: {:?} {}", s1.solution.status, s1.solution.iterations); }
+            s1.update_q(&q2).unwrap();
+            s1.solve();
+            let mut s2 = clarabel::solver::DefaultSolver::new(&P, &q2, &A, &p.b, &p.clarabel_cones(), p.settings());
+            s2.solve();
+            println!("updated: {:?} {} obj {:e}", s1.solution.status, s1.solution.iterations, s1.solution.obj_val);
+            println!("fresh  : {:?} {} obj {:e}", s2.solution.status, s2.solution.iterations, s2.solution.obj_val);
+            println!("x diff {:e}", s1.solution.x.iter().zip(&s2.solution.x).map(|(a, b)| (a - b).abs()).fold(0.0, f64::max));
         }
         "json-sens" => {
             // diagnostic: verdict histogram of a case under random one-ulp perturbations of its data
